@@ -142,6 +142,12 @@ def judge(ctx, q, stats, info):
             ctx.count("obligation:extract-checked")
     # --- remove_empty_metadata
     arg = astx.clone(q)
+    if stats.get("n", 0) and ctx.rnd.random() < 0.5:
+        # query-level metadata annotations, as QMetaData leaves them on (shallow copies of) query nodes
+        for n in astx.walk_nodes(arg):
+            if isinstance(n, ast.Call) and ctx.rnd.random() < 0.3:
+                n._q_metadata = {"k": 1}
+        ctx.count("inputs-with-q-metadata-annotations")
     snap = astx.dump_fields(arg)
     try:
         got = remove_empty_metadata(arg)
